@@ -71,6 +71,9 @@ class Scenario:
             o.semantic_label = lab
             if frame_id == "map":
                 o = O.to_map(o, f.ego_pos, f.ego_yaw)
+                if e.get("int_map") and all(abs(v - round(v)) < 1e-6 for v in o.state.position):
+                    # a map position on the integer grid handed over as Python ints (hand-written scenarios, grid maps)
+                    o.state.position = tuple(int(round(v)) for v in o.state.position)
             out.append(o)
         return out
 
